@@ -90,12 +90,24 @@ def _child_main(fn, arg, wfd, limit):
         devnull = os.open(os.devnull, os.O_WRONLY)
         os.dup2(devnull, 1)
         os.dup2(devnull, 2)
-        try:
-            res = {'ok': True, 'result': fn(arg)}
-        except StepBudgetExceeded:
-            res = {'ok': True, 'result': {'budget_exceeded': True}}
-        except BaseException:
-            res = {'ok': False, 'harness_error': traceback.format_exc()[-4000:]}
+        # The run executes in a thread of its own: its Python stack starts empty, so the depth at which the
+        # interpreter's recursion limit would strike is the same for a direct child, a pool worker's child
+        # and a nested child (seen: a RecursionError inside the library whose raise site moved with the
+        # depth of the caller).
+        box = {}
+
+        def body():
+            try:
+                box['res'] = {'ok': True, 'result': fn(arg)}
+            except StepBudgetExceeded:
+                box['res'] = {'ok': True, 'result': {'budget_exceeded': True}}
+            except BaseException:
+                box['res'] = {'ok': False, 'harness_error': traceback.format_exc()[-4000:]}
+        import threading
+        t = threading.Thread(target=body)
+        t.start()
+        t.join()
+        res = box.get('res') or {'ok': False, 'harness_error': 'run thread ended without a result'}
         data = json.dumps(res).encode()
         off = 0
         while off < len(data):
